@@ -52,6 +52,13 @@ def _receiver_kind(c):
     return None
 
 
+def _fn_item(a):
+    """The function a constant operand names (`BlsError::from`, a tuple-struct constructor), else None."""
+    if isinstance(a, dict) and isinstance(a.get("const"), dict) and isinstance(a["const"].get("fn"), dict):
+        return a["const"]["fn"]
+    return None
+
+
 def _closure_defs(j):
     """local -> (closure key, block, stmt index) for closure aggregates assigned exactly once."""
     out, many = {}, set()
@@ -124,6 +131,13 @@ def desugar_combinators(j, by_key, depth=0):
                 ok = False
                 break
             a = t["args"][k]
+            fi = _fn_item(a)
+            if fi is not None:
+                # a function item (`.map_err(BlsError::from)`, `.map(Wrapper)`): called / built in the arm
+                if fi.get("ctor") and fi["ctor"].get("variant") != fi["ctor"].get("adt"):
+                    ok = False
+                    break
+                continue
             pl = (a.get("move") or a.get("copy")) if isinstance(a, dict) else None
             if not pl or "p" in pl or pl["l"] not in cdefs or cdefs[pl["l"]][0] not in by_key:
                 ok = False
@@ -187,6 +201,22 @@ def desugar_combinators(j, by_key, depth=0):
                 return emit(cond, payload_place, {"l": cl}, sw)
             if k == "call":
                 _, ak, mode = expr
+                fi = _fn_item(t["args"][ak])
+                if fi is not None:
+                    if mode == "none":
+                        cargs = []
+                        pre_ = []
+                    elif mode == "ref_payload":
+                        rl = new_local()
+                        pre_ = [{"k": "assign", "place": {"l": rl}, "rv": {"ref": payload_place, "mut": False}, "sp": sp}]
+                        cargs = [{"move": {"l": rl}}]
+                    else:
+                        pre_ = []
+                        cargs = [{"move": payload_place}]
+                    if fi.get("ctor"):
+                        ct = fi["ctor"]
+                        return new_block(pre_ + [{"k": "assign", "place": out_place, "rv": {"agg": {"adt": ct["adt"], "adt_path": ct.get("adt_path"), "variant": ct["variant"], "vi": 0, "fields": ["0"] if cargs else []}, "ops": cargs}, "sp": sp}], {"k": "goto", "target": nxt, "sp": sp})
+                    return new_block(pre_, {"k": "call", "callee": dict(fi), "args": cargs, "arg_tys": ["?"] * len(cargs), "dest": out_place, "target": nxt, "sp": sp, "fn_sp": sp})
                 cl_local = (t["args"][ak].get("move") or t["args"][ak].get("copy"))["l"]
                 h = desugar_combinators(by_key[cdefs[cl_local][0]], by_key, depth + 1)
                 lo, bo = len(nj["locals"]), len(blocks)
